@@ -129,7 +129,7 @@ def _applicable(cls, model, ev):
 class Machine:
     """the real provider (in memory, or on a private file) plus the integer model (count, width)"""
 
-    def __init__(self, cls, w, path=None, start=None):
+    def __init__(self, cls, w, path=None, start=None, nl=True):
         self.sc = _sc()
         self.cls, self.w = cls, w
         self.path = Path(path) if path is not None else None
@@ -139,7 +139,7 @@ class Machine:
             if self.path.exists():
                 self.path.unlink()
             if start is not None:
-                self.path.write_text(f"{start}\n")
+                self.path.write_text(f"{start}\n" if nl else f"{start}")  # nl=False: a count file written without a line terminator
         self.inst = self._new()
         if cls == "mem" and start is not None:
             self.inst.count = start
@@ -411,12 +411,13 @@ def wide(rec, cls, restart_every, tmp):
         top = ((1 << w) - 3) % (1 << w)
         ok = True
         for parity in (0, 1):  # the call that returns 2^w-1 and the one that returns 0 are made through both entry points
-            m = Machine(cls, w, path, start=top)
-            ok = _script(rec, "wide" + ("/restart-every-call" if restart_every else ""), case, m,
-                         itertools.chain(["C"] if cls != "mem" else [], _calls(8, restart_every, observe=cls != "mem", first=parity))) and ok
-            rec.states += 8
-            rec.traces += 1
-            rec.case(True, ops=m.ops)
+            for nl in ((True, False) if cls != "mem" else (True,)):  # the start file with and without a line terminator
+                m = Machine(cls, w, path, start=top, nl=nl)
+                ok = _script(rec, "wide" + ("/restart-every-call" if restart_every else "") + ("" if nl else "/start-file-without-newline"), case, m,
+                             itertools.chain(["C"] if cls != "mem" else [], _calls(8, restart_every, observe=cls != "mem", first=parity))) and ok
+                rec.states += 8
+                rec.traces += 1
+                rec.case(True, ops=m.ops)
         if ok:
             rec.outcome(f"wide/{cls}/w={w}/restart={restart_every}")
             if w in (54, 64):
@@ -515,19 +516,30 @@ def reject(rec, cls, w, tmp):
         tag = "" if mode == "ctor" else "/width-set-by-setter"
         for content in bad_contents(w) if mode == "ctor" else [f"{mod}\n", f"{mod + 1}\n"]:
             for op in OPS:
-                path.write_text(content, encoding="utf-8")
-                inst = make(mode, w0)
-                case = {"kind": "reject", "cls": cls, "w": w, "content": content, "op": op, "mode": mode}
-                rec.case(True, ops=1)
-                try:
-                    v = call(inst, op)
-                except ValueError:
-                    rec.outcome("reject/ValueError")
-                    continue
-                except Exception as e:
-                    rec.violation(f"C19.reject/{_clsname(cls)}/wrong-exception/{type(e).__name__}", case, repr(e), "ValueError")
-                    continue
-                rec.violation(f"C19.reject/{_clsname(cls)}/accepted{tag}", case, v, "ValueError")
+                # warm = 0: a new instance finds the bad content; warm = 1, 2: an instance that already made that many good
+                # calls (a call through each entry point) finds the file changed under it - every read is checked, not only the first
+                for warm in (0, 1, 2):
+                    path.write_text(content if not warm else "0\n", encoding="utf-8")
+                    inst = make(mode, w0)
+                    case = {"kind": "reject", "cls": cls, "w": w, "content": content, "op": op, "mode": mode, "warm": warm}
+                    rec.case(True, ops=1 + warm)
+                    wtag = tag + ("/on-a-used-instance" if warm else "")
+                    try:
+                        for i in range(warm):
+                            call(inst, ("current", "get_and_increment")[(i + 1) % 2] if warm == 2 else op)
+                        if warm:
+                            path.write_text(content, encoding="utf-8")
+                    except Exception:
+                        continue  # the good calls are judged by the counting clauses
+                    try:
+                        v = call(inst, op)
+                    except ValueError:
+                        rec.outcome("reject/ValueError")
+                        continue
+                    except Exception as e:
+                        rec.violation(f"C19.reject/{_clsname(cls)}/wrong-exception/{type(e).__name__}", case, repr(e), "ValueError")
+                        continue
+                    rec.violation(f"C19.reject/{_clsname(cls)}/accepted{wtag}", case, v, "ValueError")
         # the two extreme valid counts are accepted and continued from
         for val in (0, mod - 1):
             for op in OPS:
